@@ -31,6 +31,8 @@ type Demand struct {
 	MaxDepth   int
 	// ExemptCall may replace the requirement at a caller's call site (table exceptions, each with its own obligation)
 	ExemptCall func(cs *Site, g *Formula) *Formula
+	// UseSticky: admission facts established earlier on the path count even if later invalidated
+	UseSticky bool
 }
 
 func (a *Analysis) newDemand(roots []*FuncInfo) *Demand {
@@ -144,7 +146,16 @@ func (d *Demand) ProveAt(site *Site, gOf func(sn *Snap) *Formula) *Failure {
 
 func (d *Demand) proveSnap(site *Site, sn *Snap, g *Formula, depth int) *Failure {
 	d.Steps++
-	r, cex := residual(g, sn.F, d.modeFor(sn.Killed))
+	facts := sn.F
+	if d.UseSticky && len(sn.Sticky) > 0 {
+		facts = sn.F.clone()
+		for k, l := range sn.Sticky {
+			if _, known := facts.m[k]; !known {
+				facts.add(l)
+			}
+		}
+	}
+	r, cex := residual(g, facts, d.modeFor(sn.Killed))
 	lab := d.siteLabel(site)
 	if r.K == FFalse {
 		return &Failure{Chain: []string{lab}, Cex: cexString(cex), Reason: "cannot establish " + g.String() + " on path {" + sn.Trail + "}"}
